@@ -185,6 +185,12 @@ def gen_elements_c(T, ref):
     arr('eleshort', T['EleShort_'], lambda k: fid[k], lambda v: sid[v], 'int')
     arr('elefull', T['EleFull_'], lambda k: sid[k], lambda v: fid[v], 'int')
     inv = [(a, b) for a, b in ref['mass_inversions'] if a in sid and b in sid]      # pairs beyond the tabulated range do not apply
+    saw, zref = ref['standard_atomic_weights'], ref['atomic_numbers']
+    missing = [k for k, _ in T['Mass_'] if k not in saw] + [k for k, _ in T['EleNum_'] if k not in zref]
+    if missing:
+        raise core.Undecided('contract drift: no reference value for element(s) %s' % sorted(set(missing)))
+    refasserts = ''.join('  __CPROVER_assert(fabs(%s / %r - 1.0) < 5e-4, "mass of %s agrees with the standard atomic weight %r to 4 significant digits");\n' % (float(v), saw[k], k, saw[k]) for k, v in T['Mass_'])
+    refasserts += ''.join('  __CPROVER_assert(%d == %d, "atomic number of %s equals %d");\n' % (int(v), zref[k], k, zref[k]) for k, v in T['EleNum_'])
     c.append('static int inversion(int a, int b) { return %s; }' % (' || '.join('(a == %d && b == %d)' % (sid[a], sid[b]) for a, b in inv) or '0'))
     c.append(r'''
 static int lookup(const int *keys, int n, int k) { for (int i = 0; i < n; i++) if (keys[i] == k) return i; return -1; }
@@ -209,6 +215,7 @@ void h_elements(void) {
     __CPROVER_assert(k >= 0 && nuccrg_val[i] == (double)elenum_val[k], "nuclear charge equals atomic number");
   }
   /* masses: positive, and increasing with atomic number except at the listed inversions */
+@REFASSERTS@
   for (int i = 0; i < mass_N; i++) {
     __CPROVER_assert(mass_val[i] > 0.0, "mass positive");
     int ki = lookup(elenum_key, elenum_N, mass_key[i]);
@@ -229,7 +236,7 @@ void h_elements(void) {
   __CPROVER_assert(eleshort_N == elefull_N, "EleShort and EleFull have the same number of entries");
   __CPROVER_assert(0, "canary: reachable end of the element harness");
 }''')
-    return '\n'.join(c) + '\n', max(len(T['EleNum_']), len(T['Mass_'])) + 2
+    return ('\n'.join(c) + '\n').replace('@REFASSERTS@', refasserts), max(len(T['EleNum_']), len(T['Mass_'])) + 2
 
 
 def job_units(ref, enums, consts, group, part=0, nparts=1, chunk=40):
